@@ -87,7 +87,7 @@ def run(module, cfg=None, *, workers=None, simulate=None, depth=None, seed=None,
     sc = os.path.join(scratch(), tag + '-%d' % int(time.time() * 1000))
     os.makedirs(sc, exist_ok=True)
     res = TLCResult()
-    cmd = ['java', '-XX:+UseParallelGC', '-Xmx' + heap, '-Xss256m', '-DTLA-Library=' + LIBPATH]
+    cmd = ['java', '-XX:+UseParallelGC', '-Xmx' + heap, '-Xss256m', '-DTLA-Library=' + LIBPATH, '-Djava.io.tmpdir=' + sc]      # TLC's own temp files go to the scratch directory (removed at exit)
     if dfs:
         cmd.append('-Dtlc2.tool.queue.IStateQueue=StateDeque')
     cmd += list(jvm)
